@@ -289,6 +289,39 @@ impl Prop for C05 {
                 }
             },
         ));
+        let big_w: Vec<usize> = if tier == Tier::Quick { (1..=8).chain([16, 31, 32, 33, 47, 48, 49, 64, 90, 128]).collect() } else { (1..=140).collect() };
+        let big_h: Vec<usize> = if tier == Tier::Quick { vec![1, 3, 16, 47, 48, 70] } else { (1..=72).collect() };
+        v.push(Scope::new("large-near-boxes", "sharp boxes of inner width up to 128 (thorough: every width to 140) and inner height up to 70 whose two horizontal edges overhang one side by one cell, or whose two sides overhang the top or the bottom by one row: four touching lines that are not a closed outline, at every size (a tolerance that grows with the drawing shows only on large ones)", move |f| {
+            for &w in &big_w {
+                for &h in &big_h {
+                    if w > 8 && h > 3 && !(w >= 47 && h >= 47) {
+                        continue;
+                    }
+                    let edge = format!("+{}+", "-".repeat(w));
+                    let side = format!("|{}|", " ".repeat(w));
+                    let bars = format!("|{}|", " ".repeat(w));
+                    // horizontal edges overhang on the left / on the right
+                    let mut rows: Vec<String> = vec![format!("-{}", edge)];
+                    rows.extend((0..h).map(|_| format!(" {}", side)));
+                    rows.push(format!("-{}", edge));
+                    f(Case::s(rows.join("\n")));
+                    let mut rows: Vec<String> = vec![format!("{}-", edge)];
+                    rows.extend((0..h).map(|_| side.clone()));
+                    rows.push(format!("{}-", edge));
+                    f(Case::s(rows.join("\n")));
+                    // sides overhang above / below
+                    let mut rows: Vec<String> = vec![bars.clone(), edge.clone()];
+                    rows.extend((0..h).map(|_| side.clone()));
+                    rows.push(edge.clone());
+                    f(Case::s(rows.join("\n")));
+                    let mut rows: Vec<String> = vec![edge.clone()];
+                    rows.extend((0..h).map(|_| side.clone()));
+                    rows.push(edge.clone());
+                    rows.push(bars.clone());
+                    f(Case::s(rows.join("\n")));
+                }
+            }
+        }));
         v.push(Scope::new("grid4-3x3", "all 3x3 grids over {space,-,|,+}", |f| {
             enumr::grids(&[' ', '-', '|', '+'], 3, 3, &mut |g| f(Case::s(g)))
         }));
